@@ -624,7 +624,8 @@ fn frame_universe(tier: Tier) -> Vec<RFrame> {
     }
     v.push(RFrame::Null);
     // arrays of non-array elements
-    let elems = vec![RFrame::Simple(b"OK".to_vec()), RFrame::Integer(-1), RFrame::Bulk(b"x".to_vec()), RFrame::Bulk(b"\r\n".to_vec()), RFrame::Null, RFrame::Error(b"E".to_vec()), RFrame::Bulk(vec![])];
+    // incl. the shortest possible elements (empty simple string / error: 3 bytes each)
+    let elems = vec![RFrame::Simple(b"OK".to_vec()), RFrame::Integer(-1), RFrame::Bulk(b"x".to_vec()), RFrame::Bulk(b"\r\n".to_vec()), RFrame::Null, RFrame::Error(b"E".to_vec()), RFrame::Bulk(vec![]), RFrame::Simple(vec![]), RFrame::Error(vec![])];
     v.push(RFrame::Array(vec![]));
     let maxlen = tier.pick(3, 4);
     let mut cur: Vec<Vec<RFrame>> = vec![vec![]];
@@ -991,7 +992,7 @@ pub fn report_meta(prop: &str, tier: Tier) -> (String, Value, Vec<String>) {
         _ => {
             let seqs = sequences(tier).len();
             (
-                format!("{} frame sequences (all frame kinds; integers incl. i64::MIN/MAX; bulk strings incl. empty, CR, LF, CRLF, NUL/0xFF, 8192 and 8193 bytes; arrays of length 0..{} over 7 element kinds; sequences of 1..{} frames). Each is encoded by the real write_frame into a scripted stream (bytes must equal an independent reference encoder), then delivered back to the real read_frame under a hand-written executor: all 2^(n-1) segmentations for n <= {} bytes, else whole / byte-wise / every single cut / pairs of cuts near both ends; every placement of <= 2 Pending answers between segments; every strict prefix followed by silence (must stay incomplete after yielding the complete frames) and by EOF (must be an error unless at a frame boundary). Distinct+non-trivial = frame sequences.", seqs, tier.pick(3, 4), tier.pick(3, 4), tier.pick(14, 17)),
+                format!("{} frame sequences (all frame kinds; integers incl. i64::MIN/MAX; bulk strings incl. empty, CR, LF, CRLF, NUL/0xFF, 8192 and 8193 bytes; arrays of length 0..{} over 9 element kinds (incl. the 3-byte empty simple string / error); sequences of 1..{} frames). Each is encoded by the real write_frame into a scripted stream (bytes must equal an independent reference encoder), then delivered back to the real read_frame under a hand-written executor: all 2^(n-1) segmentations for n <= {} bytes, else whole / byte-wise / every single cut / pairs of cuts near both ends; every placement of <= 2 Pending answers between segments; every strict prefix followed by silence (must stay incomplete after yielding the complete frames) and by EOF (must be an error unless at a frame boundary). Distinct+non-trivial = frame sequences.", seqs, tier.pick(3, 4), tier.pick(3, 4), tier.pick(14, 17)),
                 json!({"frame_sequences": seqs, "exhaustive_segmentation_up_to_bytes": tier.pick(14, 17)}),
                 vec!["nested arrays are outside 'any frame the connection can write' (write_frame has unimplemented!() for them); they are covered on the decoding side by C07".to_string()],
             )
